@@ -276,20 +276,26 @@ share_job!(share_threads, SubjectThreads<V, E>, share_threads, "share_threads", 
 /// while the hot source lives on. Whoever leaves last — by unsubscribe() or by
 /// dropping a guard, before or after that completion — releases the source.
 macro_rules! share_cut_job {
-  ($fname:ident, $subj:ty, $share:ident, $label:expr, $boxsub:ident) => {
-    fn $fname(len: usize) -> Job {
-      Job::new(format!("{} hot source behind tap.take(2) L{len}", $label), move |ch, obs| {
+  ($fname:ident, $subj:ty, $share:ident, $label:expr, $boxsub:ident, $box:ident, $merge:ident) => {
+    fn $fname(len: usize, fail_at_connect: bool) -> Job {
+      let what = if fail_at_connect { "tap.merge(throw): the shared stream fails during connect" } else { "tap.take(2)" };
+      Job::new(format!("{} hot source behind {what} L{len}", $label), move |ch, obs| {
         let _w = world::World::new();
         let taps = Arc::new(AtomicUsize::new(0));
         let mut hot = <$subj>::default();
         let t2 = taps.clone();
-        let shared = hot
-          .clone()
-          .tap(move |_| {
-            t2.fetch_add(1, Ordering::SeqCst);
-          })
-          .take(2)
-          .$share();
+        let tapped = hot.clone().tap(move |_| {
+          t2.fetch_add(1, Ordering::SeqCst);
+        });
+        // either way the shared stream ends by itself while the hot source (and
+        // the share's registration with it) lives on
+        let shared = if fail_at_connect {
+          let b: rxrust::ops::box_it::$box<V, E> = tapped.$merge(observable::throw(E::E1).map(V::from)).box_it();
+          b.$share()
+        } else {
+          let b: rxrust::ops::box_it::$box<V, E> = tapped.take(2).box_it();
+          b.$share()
+        };
         let mut probes: Vec<Probe> = vec![];
         let mut handles: Vec<Option<$boxsub>> = vec![];
         let mut frozen: Option<usize> = None;
@@ -344,7 +350,7 @@ macro_rules! share_cut_job {
           for (k, p) in probes.iter().enumerate() {
             let n = p.notes();
             let items = n.iter().filter(|x| !x.is_terminal()).count();
-            if items > 2 || !p.grammar_ok() {
+            if items > 2 || !p.grammar_ok() || (fail_at_connect && items > 0) {
               obs.fail(
                 format!("c11:{}:multicast", $label),
                 format!("after [{}]: subscriber {k} of take(2).share saw [{}]", hist.join(" "), fmt_notes(&n)),
@@ -364,8 +370,8 @@ macro_rules! share_cut_job {
     }
   };
 }
-share_cut_job!(share_cut_local, Subject<'static, V, E>, share, "share", BoxSubscription);
-share_cut_job!(share_cut_threads, SubjectThreads<V, E>, share_threads, "share_threads", BoxSubscriptionThreads);
+share_cut_job!(share_cut_local, Subject<'static, V, E>, share, "share", BoxSubscription, BoxOp, merge);
+share_cut_job!(share_cut_threads, SubjectThreads<V, E>, share_threads, "share_threads", BoxSubscriptionThreads, BoxOpThreads, merge_threads);
 
 /// publish + fork + connect
 fn publish_job(src: SrcKind, len: usize) -> Job {
@@ -539,15 +545,17 @@ pub fn plan(tier: Tier) -> Plan {
     }
     jobs.push(publish_job(src, len));
   }
-  jobs.push(share_cut_local(len + 1));
-  jobs.push(share_cut_threads(len + 1));
+  for fail_at_connect in [false, true] {
+    jobs.push(share_cut_local(len + 1, fail_at_connect));
+    jobs.push(share_cut_threads(len + 1, fail_at_connect));
+  }
   Plan {
     jobs,
     finish: Finish {
       prop: "C11".into(),
       tier: tier_name(tier),
       engine: "E1 opseq".into(),
-      rule: "every history up to the length bound over {subscribe (<=3), unsubscribe(k), dropping an unsubscribe_when_dropped guard(k), source next(0)/next(1)/complete/error, connect} for share / share_threads (hot and cold synchronous source, behind tap or tap+map+scan carrying counters) and publish + fork + connect, and share behind tap.take(2) over a hot source that outlives the shared stream (every subscriber gone = upstream tap counter frozen); after every step: source subscription counter (0 before connect, exactly 1 after the first join, never 2), every subscriber's trace = items emitted while it was present + the terminal, and after the last subscriber has left neither the upstream tap counter nor the subscription counter moves; non-trivial = a probe received something".into(),
+      rule: "every history up to the length bound over {subscribe (<=3), unsubscribe(k), dropping an unsubscribe_when_dropped guard(k), source next(0)/next(1)/complete/error, connect} for share / share_threads (hot and cold synchronous source, behind tap or tap+map+scan carrying counters) and publish + fork + connect, and share behind tap.take(2) / tap.merge(throw) over a hot source that outlives the shared stream (every subscriber gone = upstream tap counter frozen); after every step: source subscription counter (0 before connect, exactly 1 after the first join, never 2), every subscriber's trace = items emitted while it was present + the terminal, and after the last subscriber has left neither the upstream tap counter nor the subscription counter moves; non-trivial = a probe received something".into(),
       bounds: json!({"history_len": len, "subscribers": MAX_SUBS}),
       assumptions: vec!["what a subscriber that joins after the reference count went back to zero receives is not asserted".into()],
     },
